@@ -366,3 +366,16 @@ SPECS["C10"]["contracts"] = _NAMING[:2]
 SPECS["C05"]["clause_prefixes"] = ["C05.", "export-raised", "exactly-the-referenced-samples", "pcm-byte-identical", "rate-and-channels", "well-formed-wav"]
 SPECS["C06"]["clause_prefixes"] = ["C06.", "export-raised"]
 SPECS["C10"]["clause_prefixes"] = ["C10.", "export-raised"]
+
+SPECS["C20"]["bounded"] += [("contracts.e2e_more", "e2e:C20-programs"), ("contracts.akai_sample", "finite:akai_sample_header_bytes")]
+SPECS["C20"]["contracts"] += ["smpl_extract.akai.sample:LoopEntryAdapter._decode"] + [f"smpl_extract.akai.sample:SampleAdapter._decode_element[loops={k}]" for k in (0, 1, 2, 3)] + \
+    [_SF + "SampleFile.to_generalized"]
+SPECS["C20"]["level_text"] = ("proved: AKAI sample decoding - rate 0 -> 44100, word count, start/end markers, semitone tuning, loop mode, type; exactly the loop-table entries "
+    "with a positive duration are listed (in stored order) unless the loop mode is 'no loop'; a loop's end point is the stored marker, its duration the stored duration, 9999 = hold; "
+    "CDDA: MSF -> frames and the track's sample-frame count; note byte <-> note; layout obligations of the live header structs. BOUNDED: the live SampleHeaderConstruct with every byte "
+    "position swept over all 256 values against an independent decode; end-to-end `ls` vs models for AKAI samples, AKAI PROGRAMS (independent program writer: every header field, keygroup "
+    "chains in any slot order incl. backward links and decoys, 0..4 velocity zones), Roland samples, CDDA tracks. " + SPECS["C20"]["level_text"])
+SPECS["C20"]["not_covered"] = ["keygroup / program decoding functions as contracts (PaddedGeneral, SlicingGeneral, KeygroupAdapter)", "the 300-line cap (truncated listings are skipped)"]
+SPECS["C02"]["bounded"].append(("contracts.roland_addressing", "finite:roland_addressing"))
+SPECS["C14"]["bounded"].append(("contracts.roland_addressing", "finite:roland_addressing"))
+SPECS["C01"]["contracts"] += [f"smpl_extract.akai.sample:SampleAdapter._decode_element[loops={k}]" for k in (0, 1)]
